@@ -103,6 +103,17 @@ pub(super) enum OutboundStep {
     Retained(RetainedStep),
 }
 
+impl OutboundStep {
+    /// Whether part of this packet is already on the wire (or only its flush is missing).
+    pub(super) fn is_in_progress(&self) -> bool {
+        match self {
+            Self::Control(step) => step.state.is_in_progress(),
+            Self::Release(step) => step.state.is_in_progress(),
+            Self::Retained(step) => step.state.is_in_progress(),
+        }
+    }
+}
+
 #[derive(Debug)]
 pub(super) struct Outbound<'a> {
     buf: &'a mut [u8],
